@@ -143,6 +143,8 @@ fn random_key(rng: &mut Rng) -> String {
         3 => "a.b[0]".to_string(),
         // characters that pointer syntaxes (RFC 6901, JSONPath, URLs) treat specially
         8 => (*rng.pick(&["a/b", "~user", "a~1b", "text/plain", "~0", "/", "~", "a b", "%2F", "$.x", "#", "a\tb"])).to_string(),
+        // spellings that Rust or the derive treat specially; in a pushed key they are ordinary characters (round 8)
+        4 => (*rng.pick(&["r#type", "r#", "r#r#x", "r#a", "R#z", "_", "self", " a ", "a\n", "#[x]", "__Deserr_E"])).to_string(),
         // the previous key again (paths like next.next.next)
         9 => "next".to_string(),
         _ => {
@@ -228,7 +230,7 @@ pub fn run(ctx: &Ctx) -> i32 {
         Finish {
             level: "exploration",
             rule: format!(
-                "exhaustive (seed independent): every path of 0..=6 steps over the keys {{\"a\",\"b\",\"\"}} and the indices {{0,1,usize::MAX}} (sum of 6^k, k=0..6 = 55987 locations), each built with real push_key / push_index chains; plus {n_random} seeded random paths of up to 200 steps (index-only, key-only, exactly one key, mixed; keys that are empty, look like indices, contain dots, brackets, quotes, non-ASCII), checked at the end and at one random prefix. Oracle: Debug rendering of to_owned() and of its .path equals the list of pushed steps in order; is_origin() <=> no step; first_field / last_field = first / last key step or None. Non-trivial = path with >= 1 step; distinct = the path itself."
+                "exhaustive (seed independent): every path of 0..=6 steps over the keys {{\"a\",\"b\",\"\"}} and the indices {{0,1,usize::MAX}} (sum of 6^k, k=0..6 = 55987 locations), each built with real push_key / push_index chains; plus {n_random} seeded random paths of up to 200 steps (index-only, key-only, exactly one key, mixed; keys that are empty, look like indices, contain dots, brackets, quotes, non-ASCII, start with `r#` or have blanks around them), checked at the end and at one random prefix. Oracle: Debug rendering of to_owned() and of its .path equals the list of pushed steps in order; is_origin() <=> no step; first_field / last_field = first / last key step or None. Non-trivial = path with >= 1 step; distinct = the path itself."
             ),
             exhaustive: true,
             assumptions: vec![
